@@ -801,9 +801,71 @@ Proof.
   - destruct (fb_varkw b); reflexivity.
 Qed.
 
+(* remove_args / add_args raise ValueError only *)
+Lemma remove_args_raises inj : forall b e, remove_args b inj = Raise e -> e = ValueError.
+Proof.
+  induction inj as [|n r IH]; intros b e H; [discriminate|].
+  cbn [remove_args] in H. destruct (remove_arg b n) as [b'|e'] eqn:E.
+  - eapply IH; exact H.
+  - assert (e' = ValueError).
+    { unfold remove_arg in E. destruct (list_remove n (fb_args b)); [discriminate|].
+      destruct (list_remove n (fb_kwonly b)); [discriminate|]. inversion E; reflexivity. }
+    subst e'. destruct (fb_varkw b); [eapply IH; exact H | inversion H; reflexivity].
+Qed.
+
+Lemma add_args_raises exp : forall b e, add_args b exp = Raise e -> e = ValueError.
+Proof.
+  induction exp as [|[n d] r IH]; intros b e H; [discriminate|].
+  cbn [add_args] in H. destruct (add_arg b n d) as [b'|e'] eqn:E; [eapply IH; exact H|].
+  inversion H; subst e'. unfold add_arg in E.
+  destruct (mem n (fb_args b)); [inversion E; reflexivity|].
+  destruct (mem n (fb_kwonly b)); [inversion E; reflexivity|].
+  destruct d; [discriminate|].
+  destruct (match fb_defaults b with Some (_ :: _) => true | _ => false end); [inversion E; reflexivity | discriminate].
+Qed.
+
 (* THE REFINEMENT: the function update_wrapper builds has the signature the
    reference computes from the wrapped function's signature, the wrapped
    function's metadata, and a body that passes its own parameters on. *)
+Theorem update_wrapper_refines_strong f inj exp :
+  wf_func f -> Forall (fun nd => fst nd <> 0) exp ->
+  match update_wrapper f inj exp, spec_wraps (func_sig f) inj exp with
+  | Ok g, Ok s =>
+      sig_of (b_func g) = Ok s /      f_name (b_func g) = f_name f /\ f_doc (b_func g) = f_doc f /      f_module (b_func g) = f_module f /\ f_async (b_func g) = f_async f /      b_wrapped_is_func g = true /      b_inv g = inv_of_params (sg_params s) /      exists b2, good b2 /\ s = fb_sig b2
+  | Raise e, Raise _ => e = ValueError \/ e = SyntaxErr
+  | _, _ => False
+  end.
+Proof.
+  intros WF NZ. destruct (from_func_good f WF) as [b0 [E0 [G0 [S0 [Mn [Md [Mm Ma]]]]]]].
+  unfold update_wrapper, spec_wraps. rewrite E0, <- S0.
+  pose proof (remove_args_refines inj b0 G0) as R.
+  pose proof (remove_args_raises inj b0) as RR.
+  destruct (remove_args b0 inj) as [b1|e1]; destruct (spec_injects inj (fb_sig b0)) as [s1|e1'];
+    try exact R; try contradiction.
+  2:{ left. apply RR. reflexivity. }
+  destruct R as [G1 [S1 M1]]. subst s1.
+  pose proof (add_args_refines exp b1 G1 NZ) as A.
+  pose proof (add_args_raises exp b1) as AR.
+  destruct (add_args b1 exp) as [b2|e2]; destruct (spec_expects exp (fb_sig b1)) as [s2|e2'];
+    try exact A; try contradiction.
+  - destruct A as [G2 [S2 M2]]. subst s2.
+    destruct (get_func_good b2 G2) as [GF SF]. rewrite GF.
+    destruct M1 as [M1n [M1d [M1m M1a]]]. destruct M2 as [M2n [M2d [M2m M2a]]].
+    assert (META : fb_name b2 = f_name f /\ fb_module b2 = f_module f /\ fb_async b2 = f_async f /\
+                   fb_doc b2 = match f_doc f with Some d => d | None => 0 end).
+    { repeat split; congruence. }
+    destruct META as [Xn [Xm [Xa Xd]]].
+    destruct (f_doc f) as [dc|] eqn:FD; cbn [b_func b_inv b_wrapped_is_func].
+    + split; [exact SF|]. split; [exact Xn|]. split; [simpl; rewrite Xd; reflexivity|].
+      split; [exact Xm|]. split; [exact Xa|]. split; [reflexivity|]. split; [apply get_invocation_fb|].
+      exists b2. split; [exact G2 | reflexivity].
+    + rewrite sig_of_set_doc. split; [exact SF|]. split; [exact Xn|]. split; [reflexivity|].
+      split; [exact Xm|]. split; [exact Xa|]. split; [reflexivity|]. split; [apply get_invocation_fb|].
+      exists b2. split; [exact G2 | reflexivity].
+  - rewrite (get_func_dup b2 A). right. reflexivity.
+  - left. apply AR. reflexivity.
+Qed.
+
 Theorem update_wrapper_refines f inj exp :
   wf_func f -> Forall (fun nd => fst nd <> 0) exp ->
   match update_wrapper f inj exp, spec_wraps (func_sig f) inj exp with
@@ -817,26 +879,7 @@ Theorem update_wrapper_refines f inj exp :
   | _, _ => False
   end.
 Proof.
-  intros WF NZ. destruct (from_func_good f WF) as [b0 [E0 [G0 [S0 [Mn [Md [Mm Ma]]]]]]].
-  unfold update_wrapper, spec_wraps. rewrite E0, <- S0.
-  pose proof (remove_args_refines inj b0 G0) as R.
-  destruct (remove_args b0 inj) as [b1|e1]; destruct (spec_injects inj (fb_sig b0)) as [s1|e1'];
-    try exact R; try contradiction.
-  destruct R as [G1 [S1 M1]]. subst s1.
-  pose proof (add_args_refines exp b1 G1 NZ) as A.
-  destruct (add_args b1 exp) as [b2|e2]; destruct (spec_expects exp (fb_sig b1)) as [s2|e2'];
-    try exact A; try contradiction.
-  - destruct A as [G2 [S2 M2]]. subst s2.
-    destruct (get_func_good b2 G2) as [GF SF]. rewrite GF.
-    destruct M1 as [M1n [M1d [M1m M1a]]]. destruct M2 as [M2n [M2d [M2m M2a]]].
-    assert (META : fb_name b2 = f_name f /\ fb_module b2 = f_module f /\ fb_async b2 = f_async f /\
-                   fb_doc b2 = match f_doc f with Some d => d | None => 0 end).
-    { repeat split; congruence. }
-    destruct META as [Xn [Xm [Xa Xd]]].
-    destruct (f_doc f) as [dc|] eqn:FD; cbn [b_func b_inv b_wrapped_is_func].
-    + repeat split; try assumption.
-      * simpl. rewrite Xd. reflexivity.
-      * apply get_invocation_fb.
-    + rewrite sig_of_set_doc. repeat split; try assumption. apply get_invocation_fb.
-  - rewrite (get_func_dup b2 A). exact I.
+  intros WF NZ. pose proof (update_wrapper_refines_strong f inj exp WF NZ) as R.
+  destruct (update_wrapper f inj exp) as [g|e], (spec_wraps (func_sig f) inj exp) as [s|e']; try exact R; try exact I.
+  destruct R as [? [? [? [? [? [? [? _]]]]]]]. repeat split; assumption.
 Qed.
